@@ -17,6 +17,17 @@ CLAIMED = {
              "Stub ClassManager: pool contents are placeholders. Argument counts 6..15 of 35c/45cc and a non-zero 00 byte are out of domain.",
         technique="TLA+ spec of the Dalvik formats model-checked with TLC; enumerated states replayed into the decoder; decoder records validated by a TLA+ trace spec",
         ref="4/C01"),
+    "C02": dict(
+        spec=["LinearSweep", "LinearSweepMC", "LinearSweep_Trace", "DalvikFormat"],
+        text="LinearSweep.tla is the sweep loop as a transition system (cursor, emitted items, status; payload lengths from their headers). TLC checks "
+             "Inside/Tiling/CursorRight invariants, strict progress and termination (liveness under weak fairness) on every code array of <= 4 (thorough: 5) units "
+             "over a 15-unit alphabet, and Sweep(Assemble(l)) = l on every list of <= 3 (4) descriptors out of 17 valid instructions/payloads; every final state "
+             "is replayed into LinearSweepAlgorithm and DCode; real executions (generated valid streams over all opcodes incl. 0xfe/0xff with any register byte "
+             "and random payloads, their mutations and truncations, random buffers, methods of the shipped DEX files) are validated event by event "
+             "(begin/emit/end, offsets, lengths, re-encoding, off_to_pos, get_ins_off) by LinearSweep_Trace.",
+        note="Trusted: the opcode table transcription, TLC, the event logger in vf/props/c02.py. Non-ODEX only. First units with a non-zero 00 byte / argument count > 5 may be emitted or rejected.",
+        technique="TLA+ transition-system spec model-checked with TLC (safety + liveness); final states replayed into the code; execution traces validated by a TLA+ trace spec",
+        ref="4/C02"),
     "C03": dict(
         spec=["Leb", "LebReader", "LebExpect", "Leb_Trace"],
         text="TLC checks on the bounded LebReader model (all byte sequences of length 1-2 over a byte alphabet, boundary bytes for lengths 3-5, "
